@@ -52,4 +52,41 @@ PROPS = {
         "partial": ["ledgers obtained by loadDag: only 'at most one self-sealed vertex, no empty transaction' is checked by the code; stated under an honest-peer hypothesis in C14"],
         "assumptions": LEDGER_ASSUME, "not_modelled": LEDGER_NOT_MODELLED,
     },
+    "C01": {
+        "level": "proof",
+        "lean_targets": ["Properties.C01"],
+        "namespaces": ["Props.C01"],
+        "required_theorems": ["Props.C01.validated_means_covered", "Props.C01.covered_means_validated",
+                              "Props.C01.propose_confirms_only_validated", "Props.C01.gossip_confirms_only_validated",
+                              "Props.C01.retry_confirms_only_validated", "Props.C01.failing_tip_dropped"],
+        "sections": [{"name": "ledger", "driver": "ledger"}, {"name": "conflict", "driver": "ledger"}],
+        "partial": ["the inequality is stated relative to the intermediate book in which the parent was validated (ValidatedIn/CheckedIn); stability of a vertex' ancestor set under later steps is not proved yet",
+                    "root exemption (validateLeaf returns ok for any vertex without inbound edges before looking at funds) is kept visible as a disjunct: after truncation a stale tip whose parents were checkpointed is such a root",
+                    "truncation ('or checkpointed') is covered under C07"],
+        "assumptions": LEDGER_ASSUME, "not_modelled": LEDGER_NOT_MODELLED,
+    },
+    "C02": {
+        "level": "proof",
+        "lean_targets": ["Properties.C02"],
+        "namespaces": ["Props.C02"],
+        "required_theorems": ["Props.C02.supply_identity", "Props.C02.balances_sum_to_supply", "Props.C02.merge_refuted",
+                              "Props.C02.per_history_partial"],
+        "sections": [{"name": "conflict", "driver": "ledger"}, {"name": "ledger", "driver": "ledger"}],
+        "partial": ["full statement (no wallet overdrawn over the union of confirmed vertices) is REFUTED for the model and the code: Props.C02.merge_refuted; known finding merge-of-conflicting-tips",
+                    "proved instead: supply identity for any vertex set; per-history coverage (C01)"],
+        "assumptions": LEDGER_ASSUME, "not_modelled": LEDGER_NOT_MODELLED,
+    },
+    "C06": {
+        "level": "proof",
+        "lean_targets": ["Properties.C06"],
+        "namespaces": ["Props.C06"],
+        "required_theorems": ["Props.C06.balance_exact", "Props.C06.balance_error", "Props.C06.negative_is_error",
+                              "Props.C06.balance_deterministic"],
+        "sections": [{"name": "ledger", "driver": "ledger"}, {"name": "conflict", "driver": "ledger"}],
+        "partial": ["error side carries the extra 'partial sum not representable' disjuncts (the code adds all inflow before subtracting)",
+                    "single-tip corollary (balance over all confirmed vertices) needs the ancestors=reachability lemma, not proved yet",
+                    "read-only-ness of the implementation's query is checked by the correspondence (snapshot before/after every BAL), the model's query is a pure function"],
+        "assumptions": LEDGER_ASSUME + ["the tip a query walks is chosen by Go map iteration: the driver accepts the result iff it equals the model's result for some current tip"],
+        "not_modelled": LEDGER_NOT_MODELLED,
+    },
 }
